@@ -5,8 +5,9 @@ A  design check: TLC explores the streaming machine of tla/Escape.tla (every cal
    the laws of the reference functions Esc/Unesc over the full alphabet.
 B  TLC writes the vectors (input, Esc(input), Unesc(input)), sweep kernels and the plan.
 C  harness/cmd/escape replays them on the real jid.Escape / jid.Unescape through String, Bytes,
-   Span+Transform, transform.Reader, transform.Writer and a streaming loop with every split and
-   small capacities, compares every final output with the spec-computed expectation, and records
+   Span+Transform, transform.Reader, transform.Writer, transform.Append and a streaming loop with every
+   split and small capacities (and, in the position sweeps, destinations that end exactly in front of
+   the kernel's output), compares every final output with the spec-computed expectation, and records
    call-level traces of a seeded sample which TLC validates against tla/TrEscape.tla."""
 import json
 import os
@@ -48,7 +49,7 @@ PROPS = ["C16_Lossless", "C16_ChunkIndependent", "C16_RoundTrip", "C16_NoDisallo
 def design_check(ctx, quick):
     mclen = 2 if ctx.replay else (3 if quick else 4)
     mc = ctx.model_check("MCEscape", MC_CFG % dict(mclen=mclen, lawlen=3, dev="{}"), PROPS,
-                         workers=4 if quick else 8, timeout=1500)
+                         workers=4 if quick else 8, timeout=1500, heap=jc.heap(ctx))
     # the invariants are not vacuous: with the code-like deviation enabled TLC must find a violation
     r = ctx.tlc("MCEscape", MC_CFG % dict(mclen=1, lawlen=1, dev='{"PartialWrite"}'), workers=1, timeout=300,
                 name="MCEscapeDev")
@@ -137,6 +138,11 @@ def selftest_vectors(ctx, files):
         raise verif.Undecided("binding self-test: corrupted expectations were not reported: %s" % res["bad"])
     if any(k.startswith("esc/string") or k.startswith("unesc/string") for k in res["good"]):
         # (the uncorrupted pair may legitimately fail through other interfaces on a defective tree)
+        if ctx.violations:
+            # ... and through String as well when the tree under test breaks the transform itself (the very same
+            # cases are among the violations reported above): the comparison is live, there is nothing to add
+            ctx.log("binding self-test on vectors: the uncorrupted pair fails on this tree too (%s); already reported" % sorted(res["good"])[:3])
+            return 1
         raise verif.Undecided("binding self-test: uncorrupted vectors reported through String: %s" % res["good"])
     return 2
 
@@ -211,7 +217,14 @@ def run(ctx):
         report(ctx, summ, trace, rejected)
         nself = 0
         if not ctx.replay:
-            nself = selftest_vectors(ctx, files) + selftest_traces(ctx, trace, rejected)
+            # the violations found on the real code are already recorded (report() above) and decide the verdict: a
+            # self-test that cannot be carried out on a tree that breaks the very cases it uses must not mask them
+            try:
+                nself = selftest_vectors(ctx, files) + selftest_traces(ctx, trace, rejected)
+            except verif.Undecided as e:
+                if not ctx.violations:
+                    raise
+                ctx.log("binding self-test inconclusive on a tree with violations (verdict unaffected): %s" % str(e)[:300])
     finally:
         mc = mcbg.result()
     ctx.write_evidence("model_checking", {
@@ -221,10 +234,10 @@ def run(ctx):
         "distinct_nontrivial": summ["distinct"],
         "mismatches": summ["extra"]["mismatch_total"], "mismatch_kinds": summ["extra"].get("mismatch_kinds"),
         "rejected_traces": len(rejected), "binding_selftest_mutants_rejected": nself,
-        "exhaustive": "all strings of length <= 3 over the 31-byte alphabet, length <= %d over the 7-byte sub-alphabet, every prefix.\\h1h2.suffix with all hex pairs; every split into <= %d chunks; capacities {0..4,8}; kernels at every offset 0..300 of 4 fillers" % (
+        "exhaustive": "all strings of length <= 3 over the 31-byte alphabet, length <= %d over the 7-byte sub-alphabet, every prefix.\\h1h2.suffix with all hex pairs; every split into <= %d chunks; capacities {0..4,8} (streaming loop, and transform.Append with that much spare capacity); kernels at every offset 0..300 of 4 fillers and where their input or output offset crosses the 4096-byte buffers of transform.Reader / transform.Writer, in each position also with the destination ending exactly in front of the kernel's output and 1 / 2 bytes into it (streaming loop and transform.Append)" % (
             5 if quick else 6, 2 if quick else 3),
         "design_check": "MCEscape: streaming machine over all strings of length <= %d over the sub-alphabet + hex forms, both transformers, every call sequence with capacities {0..4,8}; reference-function laws over all strings of length <= 3 over the full alphabet; deviation PartialWrite shown to violate the invariants" % (3 if quick else 4),
-        "rule": "a vector is one input byte string (distinct by content); an evaluation is one (vector, transformer, interface, capacity, chunking) run on the real code compared with the spec-computed output; a trace is the call-level record of one evaluation",
+        "rule": "a vector is one input byte string (distinct by content; inputs that contain escape-sequence look-alikes such as \\20 or \\5c are part of both directions); an evaluation is one (vector, transformer, interface, capacity, chunking) run on the real code compared with the spec-computed output; a trace is the call-level record of one evaluation",
         "samples": summ["samples"][:2] + [m for m in summ["mismatches"][:1]],
     }, assumptions=[
         "Esc escapes every one of the ten XEP-0106 characters including each backslash (what the package documents); the property itself only fixes Unesc(Esc(s)) = s",
